@@ -540,7 +540,8 @@ def history_family(tier):
                         continue
                     for r in (SAVE_ROUTES if tier != 'quick' else HIST_PAIR_ROUTES):
                         yield finish([e1, ['save', r], e2])
-                        yield finish([['save', r], e1, ['save', r], e2])
+                        if tier != 'quick' or r == HIST_PAIR_ROUTES[-1]:
+                            yield finish([['save', r], e1, ['save', r], e2])
 
 
 def task(ctx, t):
@@ -592,7 +593,7 @@ def coverage(ctx):
              'fixed-point round, serialize() dispatch and (without associations) the instances-only route; non-trivial = distinct '
              'metamodels for which every route reproduced the snapshot. History family: metamodels reached by save / live schema '
              'edit / save / edit sequences (every save route before every edit of the alphabet; pairs of edits with a save '
-             'between or before both), final state through one route per serialisation function',
+             'between them, or before each of them -- quick tier: by one route), final state through one route per serialisation function',
         bounds=dict(string_length=2 if ctx.quick else 3, string_alphabet=STR_ALPHABET, specials=len(STR_SPECIALS), ints=len(INTS),
                     reals=len(REALS), ids=len(IDS), schemas=len(key_schemas()), instances_per_class=2 if ctx.quick else 3,
                     reserved_words=len(RESERVED),
